@@ -66,6 +66,12 @@
 #endif
 
 #define kMaxTokenTypes	230				//!< This needs to be larger than the largest token type being used
+
+#if defined(MMD6_VERIF) && defined(MMD6_VERIF_MAX_TOKEN_TYPES)
+	// Verification hook: table size override for harnesses that only use a small token alphabet (e.g. CriticMarkup)
+	#undef kMaxTokenTypes
+	#define kMaxTokenTypes	MMD6_VERIF_MAX_TOKEN_TYPES
+#endif
 #define kLargeStackThreshold 1000		//!< Avoid unnecessary searches of large stacks
 #define kMaxPairRecursiveDepth 1000		//!< Maximum recursion depth to traverse when pairing tokens -- to prevent stack overflow with "pathologic" input
 
